@@ -448,7 +448,9 @@ func (fr *Frame) enterLoop(li *loopInfo, st *State) *State {
 	for a := range li.modCell {
 		allocs = append(allocs, a)
 	}
-	sort.Slice(allocs, func(i, j int) bool { return allocs[i].Pos() < allocs[j].Pos() || (allocs[i].Pos() == allocs[j].Pos() && allocs[i].Name() < allocs[j].Name()) })
+	sort.Slice(allocs, func(i, j int) bool {
+		return allocs[i].Pos() < allocs[j].Pos() || (allocs[i].Pos() == allocs[j].Pos() && allocs[i].Name() < allocs[j].Name())
+	})
 	for _, a := range allocs {
 		c := fr.cells[a]
 		if c == nil {
